@@ -94,8 +94,9 @@ func MethodCallNamed(c *ssa.CallCommon, pkgPath, typeName, method string) bool {
 
 // NamedIs reports whether t (or *t) is the named type pkgPath.typeName.
 func NamedIs(t types.Type, pkgPath, typeName string) bool {
+	t = types.Unalias(t)
 	if p, ok := t.(*types.Pointer); ok {
-		t = p.Elem()
+		t = types.Unalias(p.Elem())
 	}
 	n, ok := t.(*types.Named)
 	if !ok {
